@@ -31,8 +31,8 @@ ASSUMPTIONS = [
 ]
 FLOORS = {"quick": {"valid_v2s": 1500, "valid_s2v": 1200, "h_nontrivial": 200, "two_viewers": 100,
                     "fault:frag": 20, "fault:rsv": 20, "fault:atyp": 20, "fault:short": 20, "fault:unknown_host": 20,
-                    "fault:no_circuit": 20, "fault:presession": 20, "fault:banned_in": 20, "fault:truncated": 20,
-                    "fault:bitflip": 8, "fault:unknown_msgnum": 10, "fault:foreign_ucc": 10, "fault:sim_first": 20, "fault:nonsocks": 20,
+                    "fault:no_circuit": 20, "fault:presession": 20, "fault:banned_in": 20, "fault:truncated": 8,
+                    "fault:bitflip": 8, "fault:unknown_msgnum": 10, "fault:foreign_ucc": 10, "fault:foreign_socks": 10, "fault:replay_ucc": 5, "fault:sim_first": 20, "fault:nonsocks": 20,
                     "fault:atyp3": 20, "fault:unregistered": 20}}
 MANIFEST = {
     "text": "Generated multi-session datagram histories with interleaved faults through the real proxy protocol stack; every "
@@ -117,8 +117,10 @@ class Run:
         self.dead = [False] * hist["viewers"]
 
     def next_pid(self, v, r, d):
+        # sequence numbers start at 1 (the reference viewer) or at 0 (hippolyzer's own client): both are legal U32 values
         k = (v, r, d)
-        self.pid[k] = self.pid.get(k, 0) + 1
+        first = 0 if self.hist.get("zero_based") else 1
+        self.pid[k] = self.pid[k] + 1 if k in self.pid else first
         return self.pid[k]
 
     def region_addr(self, v, r):
@@ -293,6 +295,20 @@ class Run:
             sent, exc = w.feed(v, payload, vaddr)
         elif kind == "unknown_host":
             sent, exc = w.feed(v, payload, ("192.0.2.%d" % (1 + p % 200), 4000 + p % 100))
+        elif kind == "foreign_socks":
+            # perfectly SOCKS5-framed, addressed to a simulator with an open circuit - but not from the SOCKS client's address
+            sent, exc = w.feed(v, socks_header(addr) + payload, ("192.0.2.%d" % (1 + p % 200), 4000 + p % 100))
+        elif kind == "replay_ucc":
+            # an association that has not logged in replays a UseCircuitCode naming a session somebody else already claimed
+            u = (v + 1 + p) % len(w.viewers)
+            if self.claimed[v] or not self.claimed[u] or u == v:
+                self.classes.pop()
+                return None
+            bound_before = [vw["proto"].session for vw in w.viewers]
+            sent, exc = w.from_viewer(v, addr, ref_datagram(ucc_case(w, u, 555000 + p)))
+            self.learned.add((v, addr))
+            if [vw["proto"].session for vw in w.viewers] != bound_before:
+                return [("fault-disturbed-state:replay_ucc", "association %d got bound to the session association %d had already claimed" % (v, u))]
         elif kind == "unregistered":
             other = ("10.9.%d.9" % (p % 200), 14000 + p % 50)
             sent, exc = w.from_viewer(v, other, payload)
@@ -431,7 +447,7 @@ def _events(nv, nr):
     s2v_case = gt.message_case(names=S2V_NAMES, **small)
     banned_case = gt.message_case(names=BANNED_NAMES, **small)
     kinds = ["frag", "rsv", "atyp", "atyp3", "short", "nonsocks", "unknown_host", "unregistered", "truncated", "bitflip", "unknown_msgnum",
-             "foreign_ucc"]
+             "foreign_ucc", "foreign_socks", "replay_ucc"]
     return st.one_of(
         st.tuples(st.just("ucc"), vs, rs),
         st.tuples(st.just("v2s"), vs, rs, v2s_case), st.tuples(st.just("v2s"), vs, rs, v2s_case),
@@ -456,9 +472,13 @@ def histories(draw, maxlen):
                      draw(st.integers(0, 10000))))
     if draw(st.integers(0, 9)) < 8:
         lead.append(("ucc", 0, 0))
+        if nv == 2 and draw(st.integers(0, 2)) == 0:
+            # the second association has not logged in yet and replays the first one's UseCircuitCode
+            lead.append(("fault", "replay_ucc", 1, 0, draw(gt.message_case(names=V2S_NAMES, allow_str=False, omit_trailing=True)),
+                         2 * draw(st.integers(0, 5000))))
         if draw(st.booleans()):
             lead.append(("ucc", nv - 1, nr - 1))
-    return {"viewers": nv, "regions": nr, "deferred": deferred, "events": lead + evs}
+    return {"viewers": nv, "regions": nr, "deferred": deferred, "events": lead + evs, "zero_based": draw(st.integers(0, 3)) == 0}
 
 
 def shards(tier):
